@@ -2002,7 +2002,8 @@ class InterCHKRevisionTree(InterInventoryTree):
                 if entry.file_id not in changed_file_ids:
                     yield InventoryTreeChange(
                         entry.file_id,
-                        (relpath, relpath),  # Not renamed
+                        # Not renamed itself, but a parent may have been
+                        (self.source.id2path(entry.file_id), relpath),
                         False,  # Not modified
                         (True, True),  # Still  versioned
                         (entry.parent_id, entry.parent_id),
